@@ -120,7 +120,11 @@ fn run_case(c: &Case, st: &mut Stats) -> Result<(), Violation> {
     // 2. the packetisation rule: the message under test must be cut into maximal packets
     //    followed by a shorter one
     let msgs = reassemble(out, &pkts).map_err(|e| Violation::new("no-closing-packet", format!("{}: {}", c.label, e)))?;
-    let big = msgs.iter().find(|m| m.data.len() == c.msg_len);
+    // Rows and ERR packets have no free fields, so their message length is known exactly. A column
+    // definition has fields the property leaves to the server (schema, original names, charset),
+    // so there the message under test is the one that carries the name: at least `msg_len` bytes.
+    let exact = !matches!(c.shape, Shape::ColName(_));
+    let big = if exact { msgs.iter().find(|m| m.data.len() == c.msg_len) } else { msgs.iter().filter(|m| m.data.len() >= c.msg_len).max_by_key(|m| m.data.len()) };
     match big {
         None => {
             let lens: Vec<usize> = msgs.iter().map(|m| m.data.len()).filter(|l| *l > 1000).collect();
@@ -130,14 +134,15 @@ fn run_case(c: &Case, st: &mut Stats) -> Result<(), Violation> {
             ));
         }
         Some(m) => {
-            let want = c.msg_len / MAXP + 1;
+            let mlen = m.data.len();
+            let want = mlen / MAXP + 1;
             if m.n_pkts != want {
-                return Err(Violation::new("packet-count", format!("{}: message of {} bytes sent in {} packets, the protocol needs {}", c.label, c.msg_len, m.n_pkts, want)));
+                return Err(Violation::new("packet-count", format!("{}: message of {} bytes sent in {} packets, the protocol needs {}", c.label, mlen, m.n_pkts, want)));
             }
-            if c.msg_len >= MAXP {
+            if mlen >= MAXP {
                 st.bump("multi_packet_messages");
             }
-            if c.msg_len % MAXP == 0 {
+            if mlen % MAXP == 0 {
                 st.bump("empty_closing_packets");
             }
         }
